@@ -25,7 +25,7 @@ impl C06 {
         C06 {
             tier,
             seed,
-            n: scaled(tier.pick(500, 40_000), scale),
+            n: scaled(tier.pick(6_000, 150_000), scale),
         }
     }
 
@@ -72,12 +72,20 @@ impl C06 {
         let mut shadowed = false;
         let mut spans_txt = String::new();
         if let Out::Ok(spans) = cur::scan_spans(f) {
+            // where would probes that start at signature positions in front of the wrapper look for data?
+            // (computed from the wrapper formats, independently of the library)
+            let targets: Vec<(usize, bool)> = (0..wrapper_start.min(f.len().saturating_sub(1)))
+                .filter_map(|i| wrap::probe_target(f, i))
+                .collect();
             let mut at = 0usize;
             for (kind, len, _pl) in &spans {
                 if *kind != 0 {
                     let (a, b) = (at, at + len);
-                    let overlaps = a < span_start + span_len && b > span_start;
-                    if overlaps && a < wrapper_start {
+                    // overlapping the embedding = the wrapper header or the stream itself: such a stream
+                    // swallows the signature or the data the scanner would need
+                    let overlaps = a < span_start + span_len && b > wrapper_start;
+                    let from_prefix = a < wrapper_start || targets.contains(&(a, *kind == 2));
+                    if overlaps && from_prefix {
                         shadowed = true;
                     }
                 }
